@@ -104,29 +104,49 @@ pub fn run(job: &Value, t: &mut Trace) -> usize {
             "sample" => channels as usize,
             _ => 1,
         };
-        let total_units = (frames * upf) as u64;
+        // "declared_frames": a declared total that differs from what the caller goes on to supply (over- / under-supply);
+        // "chunk_frames": the caller writes in chunks of that many PCM frames and dies at the first refused write
+        let decl_frames = j["declared_frames"].as_u64().map(|d| d as usize).unwrap_or(frames);
+        let total_units = (decl_frames * upf) as u64;
+        let chunk = j["chunk_frames"].as_u64().map(|c| c as usize).unwrap_or(frames.max(1));
+        let ch = channels as usize;
         let written: Result<Result<u64, String>, Caught> = catch(|| match fe {
             "byte-le" => {
                 let bytes = samples_to_bytes(&pcm, bps, false);
                 let mut w: FlacByteWriter<_, LittleEndian> =
                     FlacByteWriter::new(sink.clone(), opts, 44100, bps, channels, declared.then_some(total_units)).map_err(|e| e.to_string())?;
-                w.write_all(&bytes).map_err(|e| e.to_string())?;
+                for part in bytes.chunks(chunk * upf) {
+                    if w.write_all(part).is_err() {
+                        break;
+                    }
+                }
                 let b = w.verif_state().bytes;
                 std::mem::forget(w); // the process dies: no finalize, no Drop
                 Ok(b)
             }
             "sample" => {
                 let mut w = FlacSampleWriter::new(sink.clone(), opts, 44100, bps, channels, declared.then_some(total_units)).map_err(|e| e.to_string())?;
-                w.write(&pcm).map_err(|e| e.to_string())?;
+                for part in pcm.chunks(chunk * ch) {
+                    if w.write(part).is_err() {
+                        break;
+                    }
+                }
                 let b = w.verif_state().bytes;
                 std::mem::forget(w);
                 Ok(b)
             }
             _ => {
-                let ch = channels as usize;
                 let cols: Vec<Vec<i32>> = (0..ch).map(|c| pcm.iter().skip(c).step_by(ch).copied().collect()).collect();
                 let mut w = FlacChannelWriter::new(sink.clone(), opts, 44100, bps, channels, declared.then_some(total_units)).map_err(|e| e.to_string())?;
-                w.write(&cols).map_err(|e| e.to_string())?;
+                let mut at = 0;
+                while at < frames {
+                    let n = chunk.min(frames - at);
+                    let part: Vec<&[i32]> = cols.iter().map(|c| &c[at..at + n]).collect();
+                    if w.write(&part).is_err() {
+                        break;
+                    }
+                    at += n;
+                }
                 let b = w.verif_state().bytes;
                 std::mem::forget(w);
                 Ok(b)
@@ -150,13 +170,16 @@ pub fn run(job: &Value, t: &mut Trace) -> usize {
                 starts.push((*pcm_frames, *bytes_so_far as usize));
             }
         }
-        for (i, (n, _)) in starts.iter().enumerate() {
+        for (i, (n, start)) in starts.iter().enumerate() {
             let end = if i + 1 < starts.len() { starts[i + 1].1 } else { audio_bytes };
-            fr.push((*n, end));
+            // the hook fires before the length check: a refused frame has no bytes and is not a frame
+            if end > *start {
+                fr.push((*n, end));
+            }
         }
         t.emit(json!({"ev": "crashrun", "run": ri as i64, "fe": fe, "channels": channels as i64, "bps": bps as i64,
             "meta_len": meta_len as i64, "total_bytes": bytes.len() as i64,
-            "declared": if declared { frames as i64 } else { -1 },
+            "declared": if declared { decl_frames as i64 } else { -1 },
             "frames": fr.iter().map(|(n, e)| json!([*n as i64, *e as i64])).collect::<Vec<_>>(),
             "written_pcm_frames": frames as i64, "opts": j["opts"]}));
         // cut points: after every underlying write call, or every byte
